@@ -833,6 +833,11 @@ class Interp:
         """(sign, origins) of an arithmetic result.  A difference is non-negative only under a dominating guard
         that orders its operands (`if a > b: ... a - b`)."""
         sa, sb = sign_of(a), sign_of(b)
+        if isinstance(op, ast.Sub) and isinstance(n, ast.BinOp):
+            # an ordering guard decides a difference whatever the signs of its operands
+            rel = guard_orders(g[self.gbase[-1]:] if self.gbase else g, ast.unparse(n.left), ast.unparse(n.right))
+            if rel:
+                return rel, frozenset()
         if sa is None or sb is None:
             # `x - y` with y possibly negative etc.: propagate the operand origins
             return None, neg_of(a) | neg_of(b)
